@@ -169,6 +169,20 @@ theorem C03_shutdown_terminates : C03_shutdown_terminates_full :=
 theorem C03_shutdown_terminates_without_offers {s : State} (h : Reachable s) (hp : 1 ≤ s.phase) (hpool : PoolOK s) :
     ∃ ls s', (∀ l ∈ ls, isOffer l = false) ∧ runFrom s ls = some s' ∧ s'.phase = 5 := shutdown_terminates h hp hpool
 
+/-- **A stopped retry sender schedules nothing** — also for the queue-less exporter (no sending queue, no batcher), which is the
+degenerate case of the model in which every producer is its own consumer (`offer; read i; sendSync i` back to back, `Shutdown` =
+`shutRetry` alone): once `stopCh` is closed a failed call can only end its flight (drop or keep). -/
+theorem C03_stopped_retry_schedules_nothing (s : State) (f : Nat) (o : Outcome) (hp : 1 ≤ s.phase) :
+    fire s (.expEnd f o .again) = none := by
+  simp only [fire]
+  cases hfl : s.flights[f]? with
+  | none => rfl
+  | some fl =>
+    simp only []
+    split
+    · cases o <;> simp <;> omega
+    · rfl
+
 /-! ## non-vacuity: concrete schedules -/
 
 /-- memory queue, default batcher, retry on: two requests, the second is split, one batch stays as the partial current batch;
